@@ -13,6 +13,7 @@ import (
 	sdkmath "cosmossdk.io/math"
 	storetypes "cosmossdk.io/store/types"
 	sdk "github.com/cosmos/cosmos-sdk/types"
+	"github.com/cosmos/cosmos-sdk/types/query"
 
 	fundraising "github.com/tendermint/fundraising/x/fundraising/module"
 	frkeeper "github.com/tendermint/fundraising/x/fundraising/keeper"
@@ -37,6 +38,7 @@ type Extra struct {
 	ValidateOk bool   `json:"validate_ok"`
 	Note       string `json:"note,omitempty"`
 	Answer     []any  `json:"answer"` // C16: the answer of a Query step
+	Page       PageJ  `json:"page"`   // C16: pagination info of a listing (total count if requested, whether a next page exists)
 	// C14: digests of the complete ordered event stream of the step (bank and module events, all
 	// attributes) and of the module's raw store plus the account numbers of the model accounts
 	EvHash string `json:"evh"`
@@ -58,6 +60,11 @@ type Step struct {
 	Rep   int             `json:"rep"` // replica number (C14), 1-based
 	Len   int             `json:"len"` // lines per replica
 	Judge bool            `json:"judge"` // false: the monitor only threads its ghost state through this step
+}
+
+type PageJ struct {
+	Total int64 `json:"total"`
+	More  bool  `json:"more"`
 }
 
 type EventJ struct {
@@ -264,7 +271,8 @@ func (e *Env) Exec(a Action, raw map[string]any) (st Step) {
 		case "Genesis":
 			err = e.genesisRoundTrip(ctx, &st)
 		case "Query":
-			st.Extra.Answer, err = e.query(ctx, a)
+			_, a.HasPage = raw["limit"]
+			st.Extra.Answer, st.Extra.Page, err = e.query(ctx, a)
 		default:
 			err = fmt.Errorf("unknown action %q", a.A)
 		}
@@ -450,15 +458,30 @@ func (e *Env) storeDigest(ctx sdk.Context) string {
 
 // query executes a Query input through the module's query server and returns the answer in the
 // shape of the specification's QueryAnswer (a sequence; empty = not found).
-func (e *Env) query(ctx sdk.Context, a Action) ([]any, error) {
+func (e *Env) query(ctx sdk.Context, a Action) ([]any, PageJ, error) {
+	out, pg, err := e.query0(ctx, a)
+	return out, pg, err
+}
+
+func (e *Env) query0(ctx sdk.Context, a Action) ([]any, PageJ, error) {
 	qs := frkeeper.NewQueryServerImpl(e.K)
 	out := []any{}
+	pg := PageJ{}
+	var preq *query.PageRequest
+	if a.HasPage {
+		preq = &query.PageRequest{Offset: uint64(a.Offset), Limit: uint64(a.Limit), CountTotal: a.Total}
+	}
+	pinfo := func(r *query.PageResponse) {
+		if r != nil {
+			pg = PageJ{Total: int64(r.Total), More: len(r.NextKey) > 0}
+		}
+	}
 	statusName := map[string]string{"": "", "StandBy": frtypes.AuctionStatusStandBy.String(), "Started": frtypes.AuctionStatusStarted.String(),
 		"Vesting": frtypes.AuctionStatusVesting.String(), "Finished": frtypes.AuctionStatusFinished.String(), "Cancelled": frtypes.AuctionStatusCancelled.String()}
 	typeName := map[string]string{"": "", "F": frtypes.AuctionTypeFixedPrice.String(), "B": frtypes.AuctionTypeBatch.String()}
 	st, err := e.Project(ctx)
 	if err != nil {
-		return out, err
+		return out, pg, err
 	}
 	aucByID := map[int64]AuctionJ{}
 	for _, x := range st.Auctions {
@@ -468,32 +491,33 @@ func (e *Env) query(ctx sdk.Context, a Action) ([]any, error) {
 	case "GetAuction":
 		r, err := qs.GetAuction(ctx, &frtypes.QueryGetAuctionRequest{AuctionId: uint64(a.ID)})
 		if err != nil {
-			return out, err
+			return out, pg, err
 		}
 		au, err := frtypes.UnpackAuction(r.Auction)
 		if err != nil {
-			return out, err
+			return out, pg, err
 		}
 		out = append(out, aucByID[int64(au.GetId())])
 		if int64(au.GetId()) != a.ID {
 			out = append(out, "wrong id")
 		}
 	case "ListAuction":
-		r, err := qs.ListAuction(ctx, &frtypes.QueryAllAuctionRequest{Status: statusName[a.Status], Type: typeName[a.Type]})
+		r, err := qs.ListAuction(ctx, &frtypes.QueryAllAuctionRequest{Status: statusName[a.Status], Type: typeName[a.Type], Pagination: preq})
 		if err != nil {
-			return out, err
+			return out, pg, err
 		}
+		pinfo(r.Pagination)
 		for _, any := range r.Auction {
 			au, err := frtypes.UnpackAuction(any)
 			if err != nil {
-				return out, err
+				return out, pg, err
 			}
 			out = append(out, aucByID[int64(au.GetId())])
 		}
 	case "GetBid":
 		r, err := qs.GetBid(ctx, &frtypes.QueryGetBidRequest{AuctionId: uint64(a.ID), BidId: uint64(a.Bid)})
 		if err != nil {
-			return out, err
+			return out, pg, err
 		}
 		b := r.Bid
 		out = append(out, BidJ{ID: int64(b.Id), Bidder: e.name(b.Bidder), Type: bidTypeName(b.Type), Price: e.DecNum(b.Price),
@@ -506,46 +530,49 @@ func (e *Env) query(ctx sdk.Context, a Action) ([]any, error) {
 		if a.Bidder != "" {
 			bidder = e.AddrStr(a.Bidder)
 		}
-		r, err := qs.ListBid(ctx, &frtypes.QueryAllBidRequest{AuctionId: uint64(a.ID), Bidder: bidder, IsMatched: a.Matched})
+		r, err := qs.ListBid(ctx, &frtypes.QueryAllBidRequest{AuctionId: uint64(a.ID), Bidder: bidder, IsMatched: a.Matched, Pagination: preq})
 		if err != nil {
-			return out, err
+			return out, pg, err
 		}
+		pinfo(r.Pagination)
 		for _, b := range r.Bid {
 			out = append(out, map[string]any{"aid": int64(b.AuctionId), "id": int64(b.Id)})
 		}
 	case "ListVestingQueue":
-		r, err := qs.ListVestingQueue(ctx, &frtypes.QueryAllVestingQueueRequest{AuctionId: uint64(a.ID)})
+		r, err := qs.ListVestingQueue(ctx, &frtypes.QueryAllVestingQueueRequest{AuctionId: uint64(a.ID), Pagination: preq})
 		if err != nil {
-			return out, err
+			return out, pg, err
 		}
+		pinfo(r.Pagination)
 		for _, q := range r.VestingQueue {
 			out = append(out, map[string]any{"aid": int64(q.AuctionId), "t": TimeTick(q.ReleaseTime), "amt": q.PayingCoin.Amount.Int64(), "released": q.Released})
 		}
 	case "ListAllowedBidder":
-		r, err := qs.ListAllowedBidder(ctx, &frtypes.QueryAllAllowedBidderRequest{AuctionId: uint64(a.ID)})
+		r, err := qs.ListAllowedBidder(ctx, &frtypes.QueryAllAllowedBidderRequest{AuctionId: uint64(a.ID), Pagination: preq})
 		if err != nil {
-			return out, err
+			return out, pg, err
 		}
+		pinfo(r.Pagination)
 		for _, ab := range r.AllowedBidder {
 			out = append(out, map[string]any{"aid": int64(ab.AuctionId), "u": e.name(ab.Bidder), "cap": ab.MaxBidAmount.Int64()})
 		}
 	case "GetAllowedBidder":
 		r, err := qs.GetAllowedBidder(ctx, &frtypes.QueryGetAllowedBidderRequest{AuctionId: uint64(a.ID), Bidder: e.AddrStr(a.U)})
 		if err != nil {
-			return out, err
+			return out, pg, err
 		}
 		ab := r.AllowedBidder
 		out = append(out, map[string]any{"aid": int64(ab.AuctionId), "u": e.name(ab.Bidder), "cap": ab.MaxBidAmount.Int64()})
 	case "Params":
 		r, err := qs.Params(ctx, &frtypes.QueryParamsRequest{})
 		if err != nil {
-			return out, err
+			return out, pg, err
 		}
 		out = append(out, ParamsJ{CreateFee: e.feeJ(r.Params.AuctionCreationFee), BidFee: e.feeJ(r.Params.PlaceBidFee), ExtPeriod: int64(r.Params.ExtendedPeriod)})
 	default:
-		return out, fmt.Errorf("unknown query %q", a.Q)
+		return out, pg, fmt.Errorf("unknown query %q", a.Q)
 	}
-	return out, nil
+	return out, pg, nil
 }
 
 // modelEvents converts the module's own events into the records of the specification's EventsOf.
